@@ -44,6 +44,7 @@ def check(ck):
     r01_7(ck, rf)
     r01_8(ck, rf)
     r01_9(ck)
+    r01_10(ck)
 
 
 # ------------------------------------------------------------------ R01.1
@@ -827,3 +828,28 @@ def r01_9(ck):
                    sa.rf.poll_loop)
     ck.floor('R01.9', n, 4, 'abstract polling paths holding or starting an '
              'update')
+
+
+# ----------------------------------------------------------- R01.10, R01.11
+def r01_10(ck):
+    ck.rule('R01.10', 'an update is applied at the end of the interval it '
+            'was computed for: stored due time - previous entry time == '
+            'interval argument on every abstract path (shared with C02 '
+            'R02.1)')
+    ck.rule('R01.11', 'the scheduling members of a parallel process '
+            '(update_condition, next_update, calculate_timestep) are '
+            'forwarded to the wrapped process on every path (shared with '
+            'C13 R13.1)')
+    from ..sched import SchedulerAnalysis
+    from . import c02, c13
+    sa = SchedulerAnalysis(ck)
+    c02.r02_1(ck, sa)
+    for o in ck.obligations:
+        if o['rule'] == 'R02.1':
+            o['rule'] = 'R01.10'
+    for v in ck.violations:
+        if v.rule == 'R02.1':
+            v.rule = 'R01.10'
+    ck.rules.pop('R02.1', None)
+    c13.r13_1(ck, only=('update_condition', 'next_update',
+                        'calculate_timestep'), rule='R01.11')
